@@ -397,7 +397,7 @@ pub fn run(ctx: &Ctx) -> ! {
             "timestamps, permission bits, symlinks and hard links are never generated or compared; all fault probabilities are 0".into(),
             "histories inside known-defect zones (zones.rs) are not generated; each zone is covered by a directed scenario whose complaint is a known finding".into(),
         ],
-        min_distinct: ctx.pick(2000, 50_000),
+        min_distinct: ctx.pick(8_000, 100_000),
         required_counters: vec![
             "sweeps",
             "sync_neutrality_checks",
@@ -432,10 +432,10 @@ pub fn run(ctx: &Ctx) -> ! {
     let mut rep = vcore::run_parallel(ctx, n_dir, RunOpts::default(), move |i| {
         scenario_directed(&c2, i)
     });
-    let n_single = ctx.pick(26_000u64, 2_000_000);
-    let n_pair = ctx.pick(2_500u64, 150_000);
-    let n_sim = ctx.pick(120u64, 2_000);
-    let budget = ctx.pick(40.0, 560.0);
+    let n_single = ctx.pick(90_000u64, 2_000_000);
+    let n_pair = ctx.pick(8_000u64, 150_000);
+    let n_sim = ctx.pick(300u64, 2_000);
+    let budget = ctx.pick(45.0, 560.0);
     let c2 = ctx.clone();
     rep.merge(vcore::run_parallel(
         ctx,
